@@ -203,6 +203,7 @@ func (b *Box) maybeGC() {
 	defer atomic.StoreUint64(&b.lastGC, now)
 
 	topics2Delete := b.mark(now, epochsAfterWhichWeGC)
+	verifPoint("gc.marked")
 	b.sweep(topics2Delete)
 }
 
